@@ -564,7 +564,7 @@ func c13IdleMidFrame(c *Ctx) {
 				return
 			}
 			defer sc.Close()
-			const nq = 24
+			const nq = 46 // 4.6 s: also longer than any handshake / write time-out a listener might have armed at accept
 			var stream []byte
 			var ends []int
 			for i := 0; i < nq; i++ {
@@ -583,7 +583,7 @@ func c13IdleMidFrame(c *Ctx) {
 				off = end
 				time.Sleep(100 * time.Millisecond)
 			}
-			sc.WaitFrames(nq, 4*time.Second)
+			sc.WaitFrames(nq, 5*time.Second)
 			c.Ev.Eval(nq)
 			got := map[uint16]int{}
 			for _, f := range sc.Frames() {
